@@ -12,17 +12,19 @@ EXTENDS Meaning, Json
 P(n, u) == [n |-> n, u |-> u]
 EST == [name |-> "EST", off |-> -300]
 Name == <<"zorp">>
-TimeShifts == {[form |-> "time_shift", w |-> w, z |-> NoZone, op |-> o, parts |-> p] :
-                 w \in {1800, 36000, 84600}, o \in {"+", "-"}, p \in {<<P(25, "hour")>>, <<P(49, "hour")>>, <<P(2, "day"), P(3, "hour")>>, <<P(90, "minute")>>}}
+AEST == [name |-> "AEST", off |-> 600]
+\* (zones east and west: moving a time may cross midnight in its own zone but not in UTC, or the other way round)
+TimeShifts == {[form |-> "time_shift", w |-> w, z |-> z, op |-> o, parts |-> p] :
+                 w \in {1800, 36000, 84600}, z \in {NoZone, AEST, EST}, o \in {"+", "-"}, p \in {<<P(25, "hour")>>, <<P(49, "hour")>>, <<P(2, "day"), P(3, "hour")>>, <<P(90, "minute")>>, <<P(2, "hour")>>}}
 DateShifts == {[form |-> "date_shift", a |-> a, op |-> o, n |-> n, u |-> "day"] :
                  a \in {[y |-> 2020, m |-> 2, d |-> 28], [y |-> 2021, m |-> 12, d |-> 31]}, o \in {"+", "-"}, n \in {1, 3, 29}}
 Ctx0 == [calc |-> DefaultCalc, lang |-> "en", today |-> 0, env |-> EmptyEnv]
 \* the literal line that denotes the value of a shift
-TimeLitOf(l) == LET t == LineMeaning(Ctx0, l).slot IN [form |-> "time_lit", w |-> TimePrinted(t)[1], z |-> NoZone]
+TimeLitOf(l) == LET t == LineMeaning(Ctx0, l).slot IN [form |-> "time_lit", w |-> TimePrinted(t)[1], z |-> l.z]
 DateLitOf(l) == LET v == LineMeaning(Ctx0, l).slot  c == CivilFromDays(v.day) IN [form |-> "date_lit", a |-> [y |-> c.y, m |-> c.m, d |-> c.d]]
-TimePhrases(lit) == {[form |-> "time_diff", w |-> lit.w, z |-> NoZone, w2 |-> w2, z2 |-> NoZone] : w2 \in {1800, 43200}}
-               \cup {[form |-> "time_conv", w |-> lit.w, z |-> NoZone, z2 |-> EST]}
-               \cup {[form |-> "time_shift", w |-> lit.w, z |-> NoZone, op |-> "+", parts |-> <<P(30, "minute")>>]}
+TimePhrases(lit) == {[form |-> "time_diff", w |-> lit.w, z |-> lit.z, w2 |-> w2, z2 |-> lit.z] : w2 \in {1800, 7200, 43200}}
+               \cup {[form |-> "time_conv", w |-> lit.w, z |-> lit.z, z2 |-> EST]}
+               \cup {[form |-> "time_shift", w |-> lit.w, z |-> lit.z, op |-> "+", parts |-> <<P(30, "minute")>>]}
 DatePhrases(lit) == {[form |-> "date_diff", a |-> lit.a, b |-> b] : b \in {[y |-> 2020, m |-> 3, d |-> 1], [y |-> 2022, m |-> 1, d |-> 15]}}
                \cup {[form |-> "date_shift", a |-> lit.a, op |-> "+", n |-> 2, u |-> "day"]}
 \* the same for amounts of money, quantities and durations that are results
